@@ -117,6 +117,8 @@ func main() {
 			}
 		}
 		fmt.Printf("TOTAL units=%d obligations=%d not-discharged=%d load=%.1fs wall=%.1fs\n", len(results), total, bad, loadS, time.Since(t0).Seconds())
+	case "owners":
+		e.dumpOwners()
 	case "check":
 		os.Exit(e.checkProperty(*verif, *prop, *tier, t0))
 	default:
@@ -137,6 +139,12 @@ func (e *Engine) runUnits(names []string, opts SolveOpts) []*UnitResult {
 			defer func() { <-sem }()
 			if n == "bv:attrsBitmap" {
 				results[i] = e.bvProof()
+				return
+			}
+			if n == "own:fields" {
+				mu.Lock()
+				results[i] = e.ownProof()
+				mu.Unlock()
 				return
 			}
 			mu.Lock()
